@@ -2,5 +2,6 @@ SPECIFICATION Spec
 CONSTANTS
   MaxOps = 3
   OpSet = "core"
+  Atoms = "simple"
   Emit = TRUE
 INVARIANTS RoundTrip ParenOnlyAdds
